@@ -32,6 +32,51 @@ _STR_METHODS = frozenset({'startswith', 'endswith', 'lower', 'upper', 'strip', '
                           'replace', 'find', 'rfind', 'isdigit', 'join', 'format', 'removeprefix', 'removesuffix', 'title', 'capitalize'})
 
 
+_PURE_BUILTINS = {'dict': dict, 'list': list, 'tuple': tuple, 'set': set, 'sorted': sorted, 'range': range, 'enumerate': enumerate, 'zip': zip, 'reversed': reversed,
+                  'min': min, 'max': max, 'abs': abs, 'sum': sum, 'len': len, 'str': str, 'int': int, 'bool': bool, 'repr': repr}
+
+
+def _concrete(v, depth=0):
+    """a plain Python value without abstract parts (node objects, opaque values, class / external markers may be *elements*
+    of containers - the builtins above only rearrange them - but not the container itself)"""
+    if v is None or isinstance(v, (int, float, str, bytes)):
+        return True
+    if isinstance(v, (list, set)):
+        return True
+    if isinstance(v, dict):
+        return True
+    if isinstance(v, tuple):
+        return not (v and isinstance(v[0], str) and v[0] in ('class', 'ext', 'kind', 'closure', 'unbound', 'classayns', 'super', 'super_ayns', 'dictmethod', 'listmethod', 'strmethod', 'builtinmethod', 'objdictmethod', 'noop', 'dictdisplay'))
+    return False
+
+
+class _Scope(dict):
+    """local scope of a closure call: reads fall back to the defining scope (late binding), writes stay local"""
+
+    def __init__(self, parent):
+        super().__init__()
+        self.parent = parent
+
+    def __missing__(self, k):
+        return self.parent[k]
+
+    def __contains__(self, k):
+        return dict.__contains__(self, k) or k in self.parent
+
+    def get(self, k, d=None):
+        try:
+            return self[k]
+        except KeyError:
+            return d
+
+
+def _load(t):
+    import copy
+    n = copy.copy(t)
+    n.ctx = ast.Load()
+    return n
+
+
 class _Continue(Exception):
     pass
 
@@ -114,6 +159,7 @@ class FDE:
         self.depth = 0
         self.class_objs = {}     # (class name, attribute) -> Obj : class-level objects such as thread-local slots
         self.externals = {}      # dotted name -> python object (stdlib classes used in isinstance tests)
+        self.extcalls = {}       # dotted name -> python callable standing in for an external function (e.g. inspect.signature)
 
     # -- public --------------------------------------------------------------------------
     def call(self, fi, *args, **kwargs):
@@ -132,14 +178,14 @@ class FDE:
         return self._attr(Ayns(obj), name)
 
     # -- evaluation ----------------------------------------------------------------------
-    def _invoke(self, fi, args, kwargs):
+    def _invoke(self, fi, args, kwargs, base_env=None):
         self.depth += 1
         if self.depth > self.max_depth:
             raise Unsupported('inlining depth exceeded at %s' % fi.qualname)
         try:
             a = fi.node.args
             names = [x.arg for x in a.posonlyargs + a.args]
-            env = {}
+            env = _Scope(base_env) if base_env is not None else {}
             defaults = a.defaults
             for i, n in enumerate(names):
                 if i < len(args):
@@ -166,13 +212,22 @@ class FDE:
                 env[a.kwarg.arg] = kwargs
             elif a.kwarg is not None:
                 env[a.kwarg.arg] = {}
+            body = fi.node.body if isinstance(fi.node.body, list) else [ast.Return(value=fi.node.body)]
             try:
-                self._run(fi.node.body, env, fi)
+                self._run(body, env, fi)
             except _Return as r:
                 return r.v
             return None
         finally:
             self.depth -= 1
+
+    def as_callable(self, v):
+        """python callable for a closure value (used by the stand-ins for stdlib higher-order functions)"""
+        if isinstance(v, tuple) and v and v[0] == 'closure':
+            return lambda *a, **k: self._invoke(v[1], list(a), dict(k), base_env=v[2])
+        if isinstance(v, Bound):
+            return lambda *a, **k: self._invoke(v.fi, [v.recv] + list(a), dict(k))
+        raise Unsupported('callable %r' % (v,))
 
     def _run(self, stmts, env, fi):
         for s in stmts:
@@ -227,6 +282,25 @@ class FDE:
                         break
                 if not broke:
                     self._run(s.orelse, env, fi)
+            elif isinstance(s, ast.While):
+                broke = False
+                n_iter = 0
+                while self._truth(self._ev(s.test, env, fi)):
+                    n_iter += 1
+                    if n_iter > 200:
+                        raise Unsupported('while loop does not terminate within 200 iterations on concrete values')
+                    try:
+                        self._run(s.body, env, fi)
+                    except _Continue:
+                        continue
+                    except _Break:
+                        broke = True
+                        break
+                if not broke:
+                    self._run(s.orelse, env, fi)
+            elif isinstance(s, ast.AugAssign):
+                cur = self._ev(ast.BinOp(left=_load(s.target), op=s.op, right=s.value), env, fi)
+                self._assign(s.target, cur, env, fi)
             elif isinstance(s, ast.Delete):
                 for t in s.targets:
                     if isinstance(t, ast.Subscript):
@@ -244,8 +318,12 @@ class FDE:
                 raise _Continue()
             elif isinstance(s, ast.Break):
                 raise _Break()
-            elif isinstance(s, (ast.FunctionDef, ast.Lambda)) and False:
-                pass
+            elif isinstance(s, ast.FunctionDef):
+                from .srcmodel import FuncInfo
+                nested = fi.nested().get(s.name) if fi is not None else None
+                if nested is None or nested.node is not s:
+                    nested = FuncInfo(s, fi.module, fi.cls, fi.ayns, outer=fi)
+                env[s.name] = ('closure', nested, env)
             else:
                 raise Unsupported('statement %s in %s' % (type(s).__name__, fi.qualname))
 
@@ -422,7 +500,15 @@ class FDE:
                 return ('dictdisplay', tuple(parts))
             return {self._ev(k, env, fi): self._ev(v, env, fi) for k, v in zip(e.keys, e.values)}
         if isinstance(e, (ast.Tuple, ast.List)):
-            vals = [self._ev(x, env, fi) for x in e.elts]
+            vals = []
+            for x in e.elts:
+                if isinstance(x, ast.Starred):
+                    v = self._ev(x.value, env, fi)
+                    if not isinstance(v, (tuple, list)):
+                        raise Unsupported('starred element of non-concrete sequence')
+                    vals.extend(v)
+                else:
+                    vals.append(self._ev(x, env, fi))
             return tuple(vals) if isinstance(e, ast.Tuple) else vals
         if isinstance(e, ast.JoinedStr):
             return Opaque('fstring')
@@ -474,6 +560,16 @@ class FDE:
             if isinstance(a, Opaque) or isinstance(b, Opaque):
                 return Opaque('sum')
             return a + b
+        if isinstance(e, ast.Lambda):
+            from .srcmodel import FuncInfo
+            return ('closure', FuncInfo(e, fi.module, fi.cls, fi.ayns, outer=fi), env)
+        if isinstance(e, ast.BinOp) and isinstance(e.op, (ast.Sub, ast.Mult)):
+            a, b = self._ev(e.left, env, fi), self._ev(e.right, env, fi)
+            if isinstance(e.op, ast.Sub) and isinstance(a, (int, float)) and isinstance(b, (int, float)):
+                return a - b
+            if isinstance(e.op, ast.Mult) and ((isinstance(a, (list, tuple, str)) and isinstance(b, int)) or (isinstance(a, (int, float)) and isinstance(b, (int, float)))):
+                return a * b
+            raise Unsupported('arithmetic on abstract values: %s' % unparse(e))
         raise Unsupported('expression %s: %s' % (type(e).__name__, unparse(e)))
 
     def _cmp(self, op, a, b):
@@ -566,6 +662,13 @@ class FDE:
                                for x in cands)
                 if isinstance(o, Obj) and isinstance(c, tuple) and c[0] == 'class':
                     return self.repo.is_subclass(o.cls, c[1])
+                _B = {'int': int, 'str': str, 'bool': bool, 'float': float, 'list': list, 'dict': dict, 'tuple': tuple, 'bytes': bytes, 'set': set}
+                if (o is None or isinstance(o, (int, str, float, bytes, list, dict, tuple, set))) and not (isinstance(o, tuple) and o and o[0] in ('class', 'ext', 'kind')) \
+                        and all(isinstance(x, tuple) and len(x) == 2 and x[0] == 'class' for x in cands):
+                    if all(x[1] in _B for x in cands):
+                        return isinstance(o, tuple(_B[x[1]] for x in cands))
+                    if all(x[1] in self.repo.classes for x in cands):
+                        return False      # a plain Python value is not an instance of a node class
                 raise Unsupported('isinstance(%r, %r)' % (o, c))
             if n == 'type' and len(args) == 1 and isinstance(args[0], Obj):
                 return ('class', args[0].cls)
@@ -586,8 +689,14 @@ class FDE:
                 if n == 'len' and isinstance(args[0], (dict, list, tuple, str)):
                     return len(args[0])
                 raise Unsupported('builtin ' + n)
+            if n in _PURE_BUILTINS and n not in env and all(_concrete(a) for a in args) and all(_concrete(v) for v in kwargs.values()):
+                try:
+                    r = _PURE_BUILTINS[n](*args, **kwargs)
+                except Exception as ex:  # noqa
+                    raise Raised(type(ex).__name__)
+                return list(r) if n in ('range', 'enumerate', 'zip', 'reversed', 'map', 'filter') else r
             if n in env and isinstance(env[n], tuple) and env[n] and env[n][0] == 'closure':
-                return self._invoke(env[n][1], args, kwargs)
+                return self._invoke(env[n][1], args, kwargs, base_env=env[n][2])
             if n in env and isinstance(env[n], tuple) and len(env[n]) == 2 and env[n][0] == 'class':
                 self.effects.append(('instantiate', env[n][1], tuple(args), tuple(sorted(kwargs.items(), key=lambda kv: kv[0]))))
                 return Opaque('instance of ' + env[n][1])
@@ -601,6 +710,15 @@ class FDE:
                     return self._invoke(self.repo.functions['ConfigNodeMeta.__call__'], [('class', n)] + args, kwargs)
                 return Opaque('instance of ' + n)
             raise Unsupported('call of %s (unresolved)' % n)
+        if isinstance(f, ast.Attribute) and unparse(f) in self.extcalls:
+            return self.extcalls[unparse(f)](*args, **kwargs)
+        if unparse(f) in ('itertools.takewhile', 'takewhile', 'itertools.dropwhile', 'dropwhile', 'filter', 'map') and len(args) == 2 and isinstance(args[1], (list, tuple)):
+            import itertools
+            fn = {'takewhile': itertools.takewhile, 'dropwhile': itertools.dropwhile, 'filter': filter, 'map': map}[unparse(f).split('.')[-1]]
+            pred = self.as_callable(args[0])
+            if fn is map:
+                return [pred(x) for x in args[1]]
+            return list(fn(lambda x: self._truth(pred(x)), args[1]))
         if isinstance(f, ast.Attribute):
             target = self._ev(f, env, fi)
             if isinstance(target, tuple) and len(target) == 2 and target[0] == 'class':
